@@ -377,7 +377,11 @@ def _explore(scen, prop, seed, known, stop_flag, roots, frontier_depth=None, pat
     eng.stop = should_stop
     eng.frontier_depth = frontier_depth
 
+    reset_shared = _JOB.get("reset_shared")
+
     def run(e):
+        if reset_shared is not None:
+            reset_shared()                 # every path starts from the import-time state of the code's long-lived mutable objects
         ctx.begin()
         scen.path(e, ctx)
     fault = None
@@ -455,6 +459,7 @@ def _scenario_child(conn, scen, prop, seed, known):
             hooks = inject.engine_hooks(scen.domains)
             if scen.prepare:
                 scen.prepare()
+            _JOB["reset_shared"] = inject.snapshot_shared_state()
             rep = run_scenario(scen, prop, seed, known, hooks)
             rep["inject_info"] = dict(inject.INFO)
         finally:
@@ -467,24 +472,78 @@ def _scenario_child(conn, scen, prop, seed, known):
         conn.close()
 
 
-def run_isolated(scen, prop, seed, known):
-    """Each scenario runs in its own process forked from the (solver-free) driver: the solver's state, term numbering and
-    the injected names never leak from one scenario into the next, so a scenario's result does not depend on what ran before it."""
-    ctx = mp.get_context("fork")
-    parent, child = ctx.Pipe(duplex=False)
-    p = ctx.Process(target=_scenario_child, args=(child, scen, prop, seed, known))
-    p.start()
-    child.close()
-    try:
-        rep = parent.recv()
-    except EOFError:
-        rep = {"child_error": "scenario process died without a report"}
-    p.join()
+def _child_report(scen, rep):
     if "child_error" in rep:
         rep = dict(name=scen.name, bounds=scen.bounds, c={}, stats={}, samples=[], confirmed=[], unconfirmed=[], mismatches=[], replays_ok=0, limits=[],
                    faults=[rep["child_error"]], funcs=[], wall_s=0, subtrees=0, missing_reach=[], extra={}, assumptions=list(scen.assumptions))
     rep["funcs"] = set(rep["funcs"])
     return rep
+
+
+def _start_isolated(scen, prop, seed, known):
+    ctx = mp.get_context("fork")
+    parent, child = ctx.Pipe(duplex=False)
+    p = ctx.Process(target=_scenario_child, args=(child, scen, prop, seed, known))
+    p.start()
+    child.close()
+    return p, parent
+
+
+def run_isolated(scen, prop, seed, known):
+    """Each scenario runs in its own process forked from the (solver-free) driver: the solver's state, term numbering and
+    the injected names never leak from one scenario into the next, so a scenario's result does not depend on what ran before it."""
+    p, parent = _start_isolated(scen, prop, seed, known)
+    try:
+        rep = parent.recv()
+    except EOFError:
+        rep = {"child_error": "scenario process died without a report"}
+    p.join()
+    return _child_report(scen, rep)
+
+
+def run_isolated_many(scens, prop, seed, known, budget_s, t0, on_report, cores=None):
+    """Run the scenarios, each in its own forked process, several at a time while the sum of their worker counts fits the
+    cores; start order = list order, reports are returned in list order. A scenario that fails stops new scenarios from starting."""
+    from multiprocessing.connection import wait
+    cores = cores or int(os.environ.get("VERIF_CORES", "0") or 0) or (os.cpu_count() or 16)
+    reports = [None] * len(scens)
+    running = {}                                   # pipe -> (index, process)
+    nxt, used, stop_all = 0, 0, False
+    def bad(rep):
+        return any(not v["known"] for v in rep["confirmed"]) or rep["faults"] or rep["mismatches"] or any(not u["relaxed"] for u in rep["unconfirmed"])
+    while nxt < len(scens) or running:
+        while nxt < len(scens) and not stop_all:
+            scen = scens[nxt]
+            need = min(max(1, scen.workers), cores)
+            if running and used + need > cores:
+                break
+            if budget_s is not None and time.time() - t0 > budget_s:
+                reports[nxt] = dict(name=scen.name, bounds=scen.bounds, skipped="time budget of the tier exhausted", c={}, stats={}, samples=[], confirmed=[],
+                                    unconfirmed=[], mismatches=[], replays_ok=0, limits=["tier budget"], faults=[], funcs=set(), wall_s=0, subtrees=0, missing_reach=[], extra={})
+                nxt += 1
+                continue
+            p, parent = _start_isolated(scen, prop, seed, known)
+            running[parent] = (nxt, p, need)
+            used += need
+            nxt += 1
+        if stop_all and not running:
+            break
+        if not running:
+            continue
+        for conn in wait(list(running)):
+            i, p, need = running.pop(conn)
+            try:
+                rep = conn.recv()
+            except EOFError:
+                rep = {"child_error": "scenario process died without a report"}
+            p.join()
+            conn.close()
+            used -= need
+            reports[i] = _child_report(scens[i], rep)
+            on_report(scens[i], reports[i])
+            if bad(reports[i]):
+                stop_all = True
+    return [r for r in reports if r is not None]
 
 
 def merge(scen, results, wall, subtrees):
@@ -531,21 +590,11 @@ def run_check(prop, level, scenarios, tier, *, technique, assumptions=(), outsid
     t0 = time.time()
     known = load_known()
     _monitor_on()
-    reports, stop_all = [], False
-    for scen in scenarios:
-        if stop_all:
-            break
-        if budget_s is not None and time.time() - t0 > budget_s:
-            reports.append(dict(name=scen.name, bounds=scen.bounds, skipped="time budget of the tier exhausted", c={}, stats={}, samples=[], confirmed=[],
-                                unconfirmed=[], mismatches=[], replays_ok=0, limits=["tier budget"], faults=[], funcs=set(), wall_s=0, subtrees=0, missing_reach=[], extra={}))
-            continue
-        rep = run_isolated(scen, prop, seed, known)
-        reports.append(rep)
+    def on_report(scen, rep):
         print(f"[{prop}] {scen.name}: paths={rep['c'].get('paths', 0)} proved={rep['c'].get('proved', 0)}/{rep['c'].get('checks', 0)} "
               f"queries={rep['stats'].get('queries', 0)} abandoned={rep['stats'].get('abandoned', 0)} replays={rep['replays_ok']} "
               f"confirmed={len(rep['confirmed'])} wall={rep['wall_s']}s", flush=True)
-        if any(not v["known"] for v in rep["confirmed"]) or rep["faults"] or rep["mismatches"] or any(not u["relaxed"] for u in rep["unconfirmed"]):
-            stop_all = True
+    reports = run_isolated_many(list(scenarios), prop, seed, known, budget_s, t0, on_report)
     return finish(prop, level, tier, seed, reports, time.time() - t0, technique, assumptions, outside, lemma_results or [], trusted_base, checker_cmd)
 
 
